@@ -37,30 +37,30 @@ type CallSpec struct {
 // Contract is the specification of one function (in /repo, or an assumed one
 // for a dependency).
 type Contract struct {
-	Kind      string // func | extern | iface | callspec
-	Name      string // contract-level name ("(*mux).Vars", "errors.As", "net/http.ResponseWriter.Header")
-	Pkg       string // import path of the package (func contracts)
-	Params    []string
-	Props     []string
-	Requires  []*Clause
-	Ensures   []*Clause
-	Modifies  []*CExpr // nil = not stated
-	ModAll    bool
-	ModNone   bool
-	ModStated bool
-	Loops     map[int]*LoopSpec
-	Lets      []*LetDef
-	CallSpecs map[string]*Contract
-	Inline    bool
-	NoInline  bool
-	Trusted   bool // contract assumed, body not verified (externs are always trusted)
-	Replay    string
-	Panics    []*Clause
-	Splits    []*Clause
-	Pure      bool
-	File      string
-	Opts      map[string]string
-	FrameStar bool // the frame obligation is a ★ obligation (C20)
+	Kind       string // func | extern | iface | callspec
+	Name       string // contract-level name ("(*mux).Vars", "errors.As", "net/http.ResponseWriter.Header")
+	Pkg        string // import path of the package (func contracts)
+	Params     []string
+	Props      []string
+	Requires   []*Clause
+	Ensures    []*Clause
+	Modifies   []*CExpr // nil = not stated
+	ModAll     bool
+	ModNone    bool
+	ModStated  bool
+	Loops      map[int]*LoopSpec
+	Lets       []*LetDef
+	CallSpecs  map[string]*Contract
+	Inline     bool
+	NoInline   bool
+	Trusted    bool // contract assumed, body not verified (externs are always trusted)
+	Replay     string
+	Panics     []*Clause
+	Splits     []*Clause
+	Pure       bool
+	File       string
+	Opts       map[string]string
+	FrameStar  bool // the frame obligation is a ★ obligation (C20)
 	FrameProps []string
 }
 
@@ -536,8 +536,8 @@ func (sp *Specs) registerSmtDecl(line string) error {
 }
 
 type sexp struct {
-	atom string
-	list []*sexp
+	atom   string
+	list   []*sexp
 	isList bool
 }
 
